@@ -97,6 +97,8 @@ pub struct Program {
     pub keys: Vec<Vec<u8>>,
     pub setup: Vec<Cmd>,
     pub clients: Vec<Vec<Cmd>>,
+    /// if non-zero the clock is set to this value after the concurrent phase, before the final reads
+    pub post_tick: u64,
 }
 
 #[derive(Clone, Debug, PartialEq)]
@@ -368,6 +370,13 @@ pub fn run_sched(prog: &Program, forced: &[usize], order: Option<&[usize]>, rng:
     // final observation by a sequential reader (only if the run completed: otherwise locks may be held)
     let mut fin = json!({"e": "final", "outcome": format!("{:?}", outcome), "steps": steps, "sched": sched_log,
         "parked": (0..n).filter(|w| st[*w] != St::Done).map(|w| json!({"c": w + 1, "site": site[w].0})).collect::<Vec<_>>()});
+    let mut timer_now = timer_now;
+    if outcome == Outcome::Complete && prog.post_tick > timer_now {
+        // let time pass (delayed flushes, TTLs) before the final reads
+        sut.lock().unwrap().timer.now.store(prog.post_tick, Ordering::SeqCst);
+        timer_now = prog.post_tick;
+        events.push(json!({"e": "tick", "to": prog.post_tick}));
+    }
     if outcome == Outcome::Complete {
         let mut snap = mem.verif_snapshot();
         snap.sort_by(|a, b| a.0.cmp(&b.0));
@@ -383,25 +392,139 @@ pub fn run_sched(prog: &Program, forced: &[usize], order: Option<&[usize]>, rng:
         fin["now"] = json!(timer_now);
         // reads of every key, as ordinary sequential commands
         let handler = BinaryHandler::new(store.clone());
-        let mut gets = Vec::new();
-        for (i, k) in prog.keys.iter().enumerate() {
-            let c = Cmd { op: "get".into(), q: false, gk: false, key: k.clone(), val: vec![], flags: 0, ttl: 0,
-                cas: CasSpec::Lit(0), opaque: 900 + i as u32, delta: 0, initial: 0 };
-            let fr = frame_of(&c, 0);
-            let mut ev = cmd_event(&c, 0, &fr);
-            let (r, p) = exec_cmd(&handler, 1 << 20, &c, 0);
-            ev["r"] = json!(r);
-            ev["panic"] = json!(p);
-            ev["dec"] = json!("frame");
-            ev["present"] = json!([]);
-            ev["bytes"] = json!(0);
-            ev["usage"] = json!("");
-            gets.push(ev);
-        }
+        let gets = final_gets(prog, &handler);
+        fin["sig"] = json!(sig_of_events(n, &events, &gets));
         fin["gets"] = json!(gets);
     }
     events.push(fin);
     RunResult { outcome, decisions, events, steps }
+}
+
+// ---------------------------------------------------------------------------------------------
+// Serial executions of a program on the real crate: the outcomes a concurrent run may be equivalent to
+
+fn resp_sig(r: &[Value]) -> String {
+    let mut s = String::from("[");
+    for f in r {
+        s.push_str(&format!("{}/{}/{}/{}/{}/{};", f["st"], f["key"].as_str().unwrap_or(""), f["v"].as_str().unwrap_or(""),
+            f["f"].as_str().unwrap_or(""), f["n"].as_str().unwrap_or(""), f["short"]));
+    }
+    s.push(']');
+    s
+}
+
+/// What a client can see of a run: every client's responses in its own order (status, key, value, flags,
+/// counter - not the CAS values, which depend on a global counter) and the final reads.
+pub fn outcome_sig(per_client: &[Vec<String>], gets: &[Value]) -> String {
+    let mut s = String::new();
+    for (i, c) in per_client.iter().enumerate() {
+        s.push_str(&format!("c{}:{}", i + 1, c.join(",")));
+        s.push('|');
+    }
+    s.push_str("final:");
+    for g in gets {
+        s.push_str(&resp_sig(g["r"].as_array().map(|a| a.as_slice()).unwrap_or(&[])));
+    }
+    s
+}
+
+fn sig_of_events(n: usize, events: &[Value], gets: &[Value]) -> String {
+    let mut per: Vec<Vec<String>> = vec![Vec::new(); n];
+    for e in events {
+        if e["e"] == "ret" {
+            let c = e["c"].as_u64().unwrap_or(1) as usize;
+            let part = if e["panic"].as_bool().unwrap_or(false) { "PANIC".to_string() } else { resp_sig(e["r"].as_array().map(|a| a.as_slice()).unwrap_or(&[])) };
+            if c >= 1 && c <= n {
+                per[c - 1].push(part);
+            }
+        }
+    }
+    outcome_sig(&per, gets)
+}
+
+fn final_gets(prog: &Program, handler: &BinaryHandler) -> Vec<Value> {
+    let mut gets = Vec::new();
+    for (i, k) in prog.keys.iter().enumerate() {
+        let c = Cmd { op: "get".into(), q: false, gk: false, key: k.clone(), val: vec![], flags: 0, ttl: 0,
+            cas: CasSpec::Lit(0), opaque: 900 + i as u32, delta: 0, initial: 0 };
+        let fr = frame_of(&c, 0);
+        let mut ev = cmd_event(&c, 0, &fr);
+        let (r, p) = exec_cmd(handler, 1 << 20, &c, 0);
+        ev["r"] = json!(r);
+        ev["panic"] = json!(p);
+        ev["dec"] = json!("frame");
+        ev["present"] = json!([]);
+        ev["bytes"] = json!(0);
+        ev["usage"] = json!("");
+        gets.push(ev);
+    }
+    gets
+}
+
+fn merges(counts: &mut Vec<usize>, cur: &mut Vec<usize>, out: &mut Vec<Vec<usize>>, cap: usize) -> bool {
+    if counts.iter().all(|c| *c == 0) {
+        out.push(cur.clone());
+        return out.len() <= cap;
+    }
+    for w in 0..counts.len() {
+        if counts[w] > 0 {
+            counts[w] -= 1;
+            cur.push(w);
+            let ok = merges(counts, cur, out, cap);
+            cur.pop();
+            counts[w] += 1;
+            if !ok {
+                return false;
+            }
+        }
+    }
+    true
+}
+
+/// Every one-at-a-time order of the program's commands (respecting each client's own order) run on a fresh
+/// store: [{"sig": what the clients see, "orders": [[client, client, ...], ...]}].  None if there are more
+/// than `cap` orders (or the eviction policy is on: its victims are random).
+pub fn serial_outcomes(prog: &Program, cap: usize) -> Option<Vec<Value>> {
+    if prog.policy != "none" {
+        return None;
+    }
+    let mut counts: Vec<usize> = prog.clients.iter().map(|c| c.len()).collect();
+    let mut orders = Vec::new();
+    if !merges(&mut counts, &mut Vec::new(), &mut orders, cap) {
+        return None;
+    }
+    let mut by_sig: Vec<(String, Vec<Vec<usize>>)> = Vec::new();
+    for order in orders {
+        let mut sut = Sut::new(&prog.policy, prog.mem_limit, 1 << 20);
+        for c in &prog.setup {
+            if c.op == "tick" {
+                sut.timer.now.store(c.delta, Ordering::SeqCst);
+                continue;
+            }
+            let fr = frame_of(c, lit(&c.cas));
+            let _ = sut.exchange(&fr.bytes());
+        }
+        let handler = BinaryHandler::new(sut.store.clone());
+        let mut next = vec![0usize; prog.clients.len()];
+        let mut per: Vec<Vec<String>> = vec![Vec::new(); prog.clients.len()];
+        for w in &order {
+            let c = &prog.clients[*w][next[*w]];
+            next[*w] += 1;
+            let (r, panicked) = if prog.layer == "cache" { exec_cmd_cache(&sut.cache, c, lit(&c.cas)) } else { exec_cmd(&handler, 1 << 20, c, lit(&c.cas)) };
+            per[*w].push(if panicked { "PANIC".to_string() } else { resp_sig(&r) });
+        }
+        if prog.post_tick > sut.timer.now.load(Ordering::SeqCst) {
+            sut.timer.now.store(prog.post_tick, Ordering::SeqCst);
+        }
+        let gets = final_gets(prog, &handler);
+        let sig = outcome_sig(&per, &gets);
+        let o1: Vec<usize> = order.iter().map(|w| w + 1).collect();
+        match by_sig.iter_mut().find(|x| x.0 == sig) {
+            Some(x) => x.1.push(o1),
+            None => by_sig.push((sig, vec![o1])),
+        }
+    }
+    Some(by_sig.into_iter().map(|(sig, orders)| json!({"sig": sig, "orders": orders})).collect())
 }
 
 pub fn program_event(id: usize, p: &Program) -> Value {
@@ -413,9 +536,13 @@ pub fn program_event(id: usize, p: &Program) -> Value {
             ev
         }
     }).collect();
-    json!({"e": "cprog", "id": id, "name": p.name, "kind": p.kind, "init": p.init, "policy": p.policy,
+    let mut ev = json!({"e": "cprog", "id": id, "name": p.name, "kind": p.kind, "init": p.init, "policy": p.policy,
         "L": std::cmp::min(p.mem_limit, 1 << 30), "keys": p.keys.iter().map(|k| hex(k)).collect::<Vec<_>>(),
-        "setup": setup, "nclients": p.clients.len()})
+        "setup": setup, "nclients": p.clients.len()});
+    if let Some(ser) = serial_outcomes(p, 800) {
+        ev["serial"] = json!(ser);
+    }
+    ev
 }
 
 /// Explores the schedules of one program: exhaustively by stateless DFS (up to `max_runs`), then - if the
@@ -587,27 +714,18 @@ pub fn stress_round(prog: &Program, out: &mut dyn Write, id: usize, round: usize
     for (_, e) in l {
         events.push(e);
     }
+    if prog.post_tick > sut.timer.now.load(Ordering::SeqCst) {
+        sut.timer.now.store(prog.post_tick, Ordering::SeqCst);
+        events.push(json!({"e": "tick", "to": prog.post_tick}));
+    }
     let mut snap = sut.mem.verif_snapshot();
     snap.sort_by(|a, b| a.0.cmp(&b.0));
     let bytes: u64 = snap.iter().map(|x| 24 + x.5.len() as u64).sum();
     let handler = BinaryHandler::new(store.clone());
-    let mut gets = Vec::new();
-    for (i, k) in prog.keys.iter().enumerate() {
-        let c = Cmd { op: "get".into(), q: false, gk: false, key: k.clone(), val: vec![], flags: 0, ttl: 0,
-            cas: CasSpec::Lit(0), opaque: 900 + i as u32, delta: 0, initial: 0 };
-        let fr = frame_of(&c, 0);
-        let mut ev = cmd_event(&c, 0, &fr);
-        let (r, p) = exec_cmd(&handler, 1 << 20, &c, 0);
-        ev["r"] = json!(r);
-        ev["panic"] = json!(p);
-        ev["dec"] = json!("frame");
-        ev["present"] = json!([]);
-        ev["bytes"] = json!(0);
-        ev["usage"] = json!("");
-        gets.push(ev);
-    }
+    let gets = final_gets(prog, &handler);
+    let sig = sig_of_events(n, &events, &gets);
     events.push(json!({"e": "final", "outcome": "Complete", "steps": 0, "sched": [], "parked": [], "bytes": bytes,
-        "usage": sut.cache.memory_usage().to_string(), "gets": gets, "phys": []}));
+        "usage": sut.cache.memory_usage().to_string(), "gets": gets, "phys": [], "sig": sig}));
     for e in &events {
         writeln!(out, "{}", e).unwrap();
     }
